@@ -12,6 +12,10 @@ use vcommon::Outcome;
 
 pub const STEP_BOUND: u64 = 400_000;
 
+pub fn step_bound() -> u64 {
+    std::env::var("VAPI_STEP_BOUND").ok().and_then(|s| s.parse().ok()).unwrap_or(STEP_BOUND)
+}
+
 pub struct Rig {
     pub net: Net,
     pub world: Rc<World>,
@@ -29,7 +33,7 @@ impl Rig {
         for c in clients {
             net.add_client(c.proto, c.tkind);
         }
-        let r = net.sim.run(STEP_BOUND);
+        let r = net.sim.run(step_bound());
         if r.exhausted {
             return Err(fail("harness:step-bound:connect", "step bound hit while connecting"));
         }
@@ -73,7 +77,7 @@ impl Rig {
     /// Runs to quiescence; reports step-bound hits, panics and in-task oracle failures.
     pub fn settle(&mut self, stage: &str) -> Result<(), Outcome> {
         let before = self.net.sim.total_steps;
-        let r = self.net.sim.run(STEP_BOUND);
+        let r = self.net.sim.run(step_bound());
         if let Some((name, p)) = self.net.sim.panics().first() {
             let (name, p) = (name.clone(), p.clone());
             let mut o = panic_outcome(&name, &p);
